@@ -18,8 +18,15 @@
     of threads** at the bitfield level (`toggle`, `set_first_zeros`, all orders): no access panics,
     the roll-backs `Failed undo toggle` / `Failed undo search` cannot fail, frees of held blocks succeed.
 
-  PARTIAL: for the whole allocator (counters/markers — where K1 lives —, tree counters,
-  reservations) panic-freedom under every interleaving is not a theorem. Explored by the trace co-simulation (preemption-bounded DFS, random schedules, freeze
+  * `conc_lower_no_panic` — **every interleaving of any number of threads, whole lower allocator**
+    (`Lower::get`/`get_at`/`put` with the huge-entry counters and markers), for callers that free
+    blocks at the order they were allocated with: no call panics (`Undo failed`, `undo failed`,
+    `Inc failed`, … are unreachable; `partial_put_huge` — where K1 lives — is never entered) and
+    every free of a held block succeeds. K1 needs a free of *part* of a huge allocation, which
+    these callers do not issue; `k1_spin_panics` shows that the restriction is necessary.
+
+  PARTIAL: for the upper level (tree counters, reservations) and for partial frees of huge
+  allocations panic-freedom under every interleaving is not a theorem. Explored by the trace co-simulation (preemption-bounded DFS, random schedules, freeze
   experiments), with panic capture and the "free of a held block succeeded" oracle; the event
   trace of every explored schedule is replayed on the Lean interleaving semantics.
 -/
@@ -28,6 +35,7 @@ import LLFreeV.Props.C09
 import LLFreeV.Props.C02
 import LLFreeV.Proofs.UpperInit
 import LLFreeV.Proofs.OwnThreads
+import LLFreeV.Proofs.OwnLowerThreads
 namespace LLFree.C03
 open LLFree
 
@@ -93,7 +101,26 @@ theorem conc_bitfield_no_panic (g : Geom) (okg : GeomOk g) (cmds : Nat → List 
 theorem conc_free_of_held_succeeds (g : Geom) (okg : GeomOk g) (own : Owned) (h i order : Nat) (hoh : order ≤ g.hugeOrder)
     (hal : (i % g.hugeFrames) % 2 ^ order = 0)
     (hown : ∀ f, inBlockF (h * g.hugeFrames + i % g.hugeFrames) (2 ^ order) f = true → own f = true) :
-    SafeR (FreePost own (h * g.hugeFrames + i % g.hugeFrames) (2 ^ order)) own (Bitfield.toggle g h i order true) :=
-  toggle_free_safe okg own h i order hoh hal hown
+    SafeR (fun _ => True) (FreePost own (h * g.hugeFrames + i % g.hugeFrames) (2 ^ order)) own (Bitfield.toggle g h i order true) :=
+  toggle_free_safe _ okg own h i order hoh hal hown (fun _ _ => trivial)
+
+/-- **Every interleaving, whole lower allocator**: no atomic access of any thread panics and
+    every `Lower::put` of a held block (freed at its allocation order) returns `Ok` — a failing
+    one would be the panic of `runL`. -/
+theorem conc_lower_no_panic (c : Cfg) (ok : GeomOk16 c.geom) (m : Mem) (inv : LowerInv c m) (n retries : Nat)
+    (cmds : Nat → List LCmd) (sched : List Nat) (hsched : ∀ k ∈ sched, k < n) (k : Nat) (hk : k < n) :
+    ∀ s, ((concRun sched (m, fun k => Th.at (runL c.geom retries (cmds k) ⟨[], []⟩))).2 k).step
+      (concRun sched (m, fun k => Th.at (runL c.geom retries (cmds k) ⟨[], []⟩))).1 = .dead s → s = oobMsg := by
+  intro s hs
+  obtain ⟨_, h⟩ := lower_threads_safe ok m inv n retries cmds sched hsched
+  have := h.threads k hk
+  rw [hs] at this
+  exact this
+
+/-- a held small block is freed successfully by `Lower::put` whatever the other threads do -/
+theorem conc_lower_put_of_held_succeeds (g : Geom) (ok : GeomOk16 g) (gh : Gh) (retries frame order : Nat) (ho : order < g.hugeOrder)
+    (hal : frame % 2 ^ order = 0) (hown : ∀ f, inBlockF frame (2 ^ order) f = true → gh.ownS f = true) :
+    SafeL true g (fun r gh' => r = .ok () ∧ gh' = gh.subS frame (2 ^ order)) gh (Lower.put g retries frame order) :=
+  putL_small ok gh retries frame order ho hal hown
 
 end LLFree.C03
